@@ -831,3 +831,25 @@ func loadOfField(v ssa.Value) (ssa.Value, string, bool) {
 	}
 	return nil, "", false
 }
+
+// failureBlocksThroughPhi: like failureBlocks, but an error value that is merged with others in a phi
+// (err assigned in both arms of an if/else, tested once afterwards) counts as tested by the test of the phi.
+func failureBlocksThroughPhi(call ssa.Value) []*ssa.BasicBlock {
+	out := failureBlocks(call)
+	for _, ev := range errValues(call) {
+		for _, r := range *ev.Referrers() {
+			phi, ok := r.(*ssa.Phi)
+			if !ok {
+				continue
+			}
+			nn, _ := nilTests(phi)
+			for _, b := range nn {
+				sb := b.Block()
+				if len(sb.Preds) == 1 {
+					out = append(out, sb)
+				}
+			}
+		}
+	}
+	return out
+}
